@@ -33,6 +33,10 @@
 //
 //	s:<enc> i:<int> f:<n>/<d> b:<0|1> n  u:<nat> (uint64)  g:<n>/<d> (float32)  x:<enc> ([]byte)  l:<tok>~<tok> (list, conditions only)
 //
+// ext lines: fastjson <literal> = <n>/<d> (span op, JSON batch numbers: what fastjson's own parser makes of the
+// literal); fmt / conv / atoi / pfloat / pbool (%v, AddAsString and strconv on every value met); rxc / rxm;
+// down <rule> = rate keep reason key; intn <n> = draw; dyn <key> <count> = rate; dintn <rate> = draw
+//
 // obs of eval: rate= keep= reason= key=   (rules sampler)   dk= dr= dkeep=   (dynamic sampler)
 //
 //	roots=<per span IsRoot bits>  g=<spans '|', fields ',' : Go value token, '-' = absent>
